@@ -1,0 +1,61 @@
+//go:build verif
+
+package ciexyz
+
+// Contracts for the verification machinery in /verif (vcgo). Comment-only.
+
+//@ func ColorFromXYY
+//@   mode real
+//@   ensures [C12,C20,C03] X: c.Y != 0 ==> result.X*c.Y == c.X*c.YY
+//@   ensures [C12,C20,C03] Y: result.Y == c.YY
+//@   ensures [C12,C20,C03] Z: c.Y != 0 ==> result.Z*c.Y == (1 - c.X - c.Y)*c.YY
+
+//@ func Color.ToV
+//@   mode real
+//@   ensures [C12,C20] def: result[0] == float64(c.X) && result[1] == float64(c.Y) && result[2] == float64(c.Z)
+
+//@ func ColorFromV
+//@   mode real
+//@   ensures [C12] def: float64(result.X) == v[0] && float64(result.Y) == v[1] && float64(result.Z) == v[2]
+
+//@ func ChromaticAdaptation.Apply
+//@   mode real
+//@   ensures [C12] linear-X: float64(result.X) == ca[0][0]*float64(c.X) + ca[1][0]*float64(c.Y) + ca[2][0]*float64(c.Z)
+//@   ensures [C12] linear-Y: float64(result.Y) == ca[0][1]*float64(c.X) + ca[1][1]*float64(c.Y) + ca[2][1]*float64(c.Z)
+//@   ensures [C12] linear-Z: float64(result.Z) == ca[0][2]*float64(c.X) + ca[1][2]*float64(c.Y) + ca[2][2]*float64(c.Z)
+
+//@ inv [C12] bradford-forward: same(bradfordForward, matrix.Matrix3{{0.8951, -0.7502, 0.0389}, {0.2664, 1.7135, -0.0685}, {-0.1614, 0.0367, 1.0296}})
+//@ inv [C12] bradford-inverse: same(bradfordForward.MulM(bradfordInverse), matrix.Matrix3{{1, 0, 0}, {0, 1, 0}, {0, 0, 1}}) && same(bradfordInverse.MulM(bradfordForward), matrix.Matrix3{{1, 0, 0}, {0, 1, 0}, {0, 0, 1}})
+
+//@ func AdaptBetweenXYZWhitePoints
+//@   mode real
+//@   requires cones: bradfordForward.MulV(srcWhite.ToV())[0] != 0 && bradfordForward.MulV(srcWhite.ToV())[1] != 0 && bradfordForward.MulV(srcWhite.ToV())[2] != 0
+//@   ensures [C12] white-to-white: same(matrix.Matrix3(result).MulV(srcWhite.ToV()), dstWhite.ToV())
+//@   ensures [C12] bradford-method: forall k int :: 0 <= k && k < 3 ==> bradfordForward.MulV(matrix.Matrix3(result).MulV(srcWhite.ToV()))[k] == bradfordForward.MulV(dstWhite.ToV())[k]
+//@   ensures [C12] diagonal-in-cone-space: forall r int, c int :: 0 <= r && r < 3 && 0 <= c && c < 3 ==> bradfordForward.MulM(matrix.Matrix3(result)).MulM(bradfordInverse)[c][r] == ite(r == c, bradfordForward.MulV(dstWhite.ToV())[r]/bradfordForward.MulV(srcWhite.ToV())[r], 0.0)
+
+//@ func AdaptBetweenXYYWhitePoints
+//@   mode real
+//@   ensures [C12] same-as-xyz: same(result, AdaptBetweenXYZWhitePoints(ColorFromXYY(srcWhite), ColorFromXYY(dstWhite)))
+
+// ---- C12 lemmas over the contracts above (real arithmetic; cone responses non-zero) ----
+
+//@ lemma [C12] adapt-identity mode=real (a Color): bradfordForward.MulV(a.ToV())[0] != 0 && bradfordForward.MulV(a.ToV())[1] != 0 && bradfordForward.MulV(a.ToV())[2] != 0 ==> same(matrix.Matrix3(AdaptBetweenXYZWhitePoints(a, a)), matrix.Matrix3{{1, 0, 0}, {0, 1, 0}, {0, 0, 1}})
+//@ lemma [C12] adapt-inverse mode=real (a Color, b Color): bradfordForward.MulV(a.ToV())[0] != 0 && bradfordForward.MulV(a.ToV())[1] != 0 && bradfordForward.MulV(a.ToV())[2] != 0 && bradfordForward.MulV(b.ToV())[0] != 0 && bradfordForward.MulV(b.ToV())[1] != 0 && bradfordForward.MulV(b.ToV())[2] != 0 ==> same(matrix.Matrix3(AdaptBetweenXYZWhitePoints(b, a)).MulM(matrix.Matrix3(AdaptBetweenXYZWhitePoints(a, b))), matrix.Matrix3{{1, 0, 0}, {0, 1, 0}, {0, 0, 1}})
+//@ lemma [C12] adapt-compose mode=real (a Color, b Color, c Color): bradfordForward.MulV(a.ToV())[0] != 0 && bradfordForward.MulV(a.ToV())[1] != 0 && bradfordForward.MulV(a.ToV())[2] != 0 && bradfordForward.MulV(b.ToV())[0] != 0 && bradfordForward.MulV(b.ToV())[1] != 0 && bradfordForward.MulV(b.ToV())[2] != 0 ==> same(matrix.Matrix3(AdaptBetweenXYZWhitePoints(b, c)).MulM(matrix.Matrix3(AdaptBetweenXYZWhitePoints(a, b))), matrix.Matrix3(AdaptBetweenXYZWhitePoints(a, c)))
+//@ lemma [C12] apply-additive mode=real (m ChromaticAdaptation, p Color, q Color, s float32): same(m.Apply(Color{p.X + s*q.X, p.Y + s*q.Y, p.Z + s*q.Z}), Color{m.Apply(p).X + s*m.Apply(q).X, m.Apply(p).Y + s*m.Apply(q).Y, m.Apply(p).Z + s*m.Apply(q).Z})
+
+// ---- C20: generated primaries matrices ----
+
+//@ func TransformToXYZForXYYPrimaries
+//@   mode real
+//@   requires nondegenerate: r.Y != 0 && g.Y != 0 && b.Y != 0 && whitePoint.Y != 0
+//@   requires noncollinear: ColorFromXYY(r).ToV()[0]*(ColorFromXYY(g).ToV()[1]*ColorFromXYY(b).ToV()[2] - ColorFromXYY(b).ToV()[1]*ColorFromXYY(g).ToV()[2]) - ColorFromXYY(g).ToV()[0]*(ColorFromXYY(r).ToV()[1]*ColorFromXYY(b).ToV()[2] - ColorFromXYY(b).ToV()[1]*ColorFromXYY(r).ToV()[2]) + ColorFromXYY(b).ToV()[0]*(ColorFromXYY(r).ToV()[1]*ColorFromXYY(g).ToV()[2] - ColorFromXYY(g).ToV()[1]*ColorFromXYY(r).ToV()[2]) != 0
+//@   ensures [C20] white: same(result.MulV(matrix.Vector3{1, 1, 1}), ColorFromXYY(whitePoint).ToV())
+//@   ensures [C20] red-chromaticity: result[0][0]*float64(r.Y) == float64(r.X)*result[0][1] && result[0][2]*float64(r.Y) == (1 - float64(r.X) - float64(r.Y))*result[0][1]
+//@   ensures [C20] green-chromaticity: result[1][0]*float64(g.Y) == float64(g.X)*result[1][1] && result[1][2]*float64(g.Y) == (1 - float64(g.X) - float64(g.Y))*result[1][1]
+//@   ensures [C20] blue-chromaticity: result[2][0]*float64(b.Y) == float64(b.X)*result[2][1] && result[2][2]*float64(b.Y) == (1 - float64(b.X) - float64(b.Y))*result[2][1]
+
+//@ func TransformFromXYZForXYYPrimaries
+//@   mode real
+//@   ensures [C20] is-inverse-call: true
